@@ -17,6 +17,7 @@ import (
 	"github.com/thushan/olla/internal/core/ports"
 	"github.com/thushan/olla/internal/logger"
 	"github.com/thushan/olla/internal/router"
+	"github.com/thushan/olla/internal/util"
 )
 
 // SecurityAdapters provides middleware for security chain
@@ -36,7 +37,7 @@ func (s *SecurityAdapters) CreateChainMiddleware() func(http.Handler) http.Handl
 			if s.securityChain != nil {
 				// Create security request from HTTP request
 				secReq := ports.SecurityRequest{
-					ClientID:      r.RemoteAddr, // This would normally be extracted better
+					ClientID:      util.GetClientIP(r, false, nil), // the peer's address without the per-connection source port
 					Endpoint:      r.URL.Path,
 					Method:        r.Method,
 					BodySize:      r.ContentLength,
